@@ -165,6 +165,14 @@ func loadProg(repo, verifDir string) (*Prog, error) {
 
 // lookupType resolves "pkg.Type" or "*pkg.Type".
 func (p *Prog) lookupType(name string) types.Type {
+	switch name {
+	case "string":
+		return types.Typ[types.String]
+	case "int":
+		return types.Typ[types.Int]
+	case "bool":
+		return types.Typ[types.Bool]
+	}
 	ptr := strings.HasPrefix(name, "*")
 	name = strings.TrimPrefix(name, "*")
 	t, ok := p.typeIndex[name]
@@ -329,6 +337,29 @@ func (p *Prog) verifyFunc(fn *ssa.Function) (u *Unit) {
 		}
 		if len(rets) == 1 {
 			env.names["result"] = rets[0]
+		}
+		// error propagation (C12): an error returned by a call on this path is reported by this function,
+		// unless the contract tolerates dropping it under a stated condition
+		if u.fc.Opts["propagate-errors"] != "" && len(rets) > 0 && rets[len(rets)-1].Sort == "Iface" {
+			out := rets[len(rets)-1]
+			for _, er := range s2.errs {
+				cond := "true"
+				for _, c := range u.fc.Clauses {
+					if c.Kind == "tolerates" && (c.Callee == er.name || c.Callee == strings.SplitN(er.name, "#", 2)[0]) {
+						env.names["_err"] = er.term
+						g, err := env.formula(c.Expr)
+						if err != nil {
+							panic(abortUnit{fmt.Sprintf("%s:%d: %v", c.File, c.Line, err)})
+						}
+						cond = tand(cond, "(not "+g+")")
+					}
+				}
+				goal := fmt.Sprintf("(=> (and (not (= (itype %s) 0)) %s) (not (= (itype %s) 0)))", er.term.S, cond, out.S)
+				saved := s2.pc
+				s2.pc = append([]string{}, saved...)
+				u.oblige(s2, fmt.Sprintf("C12.%s.propagates.%s", u.fnShort(fn), er.name), []string{"C12"}, "propagation", goal, pos)
+				s2.pc = saved
+			}
 		}
 		for _, c := range u.fc.Clauses {
 			if c.Kind != "ensures" && c.Kind != "ensures-local" && c.Kind != "closure-invariant" {
